@@ -4,7 +4,7 @@ d=json.load(sys.stdin)
 print({k:d[k] for k in ['episodes','nontrivial','counters','inconclusive','wall_s','minmax'] if k in d})
 c=Counter(v['sig'] for v in d['violations']); print(c)
 seen=set()
-n=int(sys.argv[1]) if len(sys.argv)>1 else 40
+n=int(sys.argv[1]) if len(sys.argv)>1 else 12
 for v in d['violations']:
     if v['sig'] not in seen:
-        seen.add(v['sig']); print(v['sig'],'::',v['detail'][:400], v['params']['extra']); print('\n'.join(x[:220] for x in v['history'][:n]))
+        seen.add(v['sig']); print(v['sig'],'::',v['detail'][:400], v['params']['extra']); print('\n'.join(x[:200] for x in v['history'][-n:]))
